@@ -1,6 +1,8 @@
 import logging
 import textwrap
 
+import numpy as np
+
 from ..decorators import _display_or_return, _manage_log_level_via_verbosity
 from . import Container
 
@@ -158,6 +160,12 @@ class Properties(Container):
 
         properties = self.properties()
         if properties:
+            for prop, value in properties.items():
+                if isinstance(value, (np.generic, np.ndarray)):
+                    # The repr of a numpy object can not be executed
+                    # on its own
+                    properties[prop] = value.tolist()
+
             out.append(f"{name}.set_properties({properties})")
 
         nc = self.nc_get_variable(None)
